@@ -85,6 +85,10 @@ def do_open(req):
                         check_same_thread=False,
                         cached_statements=0 if req.get("nocache") else 128)
     c.text_factory = Text
+    # collations an application would define itself (sqlite3_create_collation):
+    # definitions may name them; they order like BINARY
+    for i in range(64):
+        c.create_collation("verifcoll%d" % i, lambda a, b: (a > b) - (a < b))
     conns[name] = c
     return {"ok": True}
 
